@@ -1,0 +1,186 @@
+//go:build verif
+
+package fieldmaskpb
+
+// Contracts for the path order and the prefix relation that Normalize, Union and Intersect are
+// built on (property C44). Specs are written from the comments of lessPath and hasPathPrefix:
+// "a lexicographical comparison where dot is specially treated as the smallest symbol" and "like
+// strings.HasPrefix, but further checks for either an exact match or that the prefix is delimited
+// by a dot".
+
+// specKey orders single symbols: dot first, then the other symbols in a fixed total order.
+func specKey(c byte) int {
+	if c >= '.' {
+		return int(c) - '.'
+	}
+	return int(c) + 256 - '.'
+}
+
+// specLess: x sorts before y, comparing from position i on (the first i symbols are equal).
+//
+//@ opaque
+func specLess(x, y string, i int) bool {
+	if i >= len(x) || i >= len(y) {
+		return len(x) < len(y)
+	}
+	if x[i] != y[i] {
+		return specKey(x[i]) < specKey(y[i])
+	}
+	return specLess(x, y, i+1)
+}
+
+// specPrefix: prefix covers path — path is prefix itself or continues it with ".…".
+func specPrefix(path, prefix string) bool {
+	return len(path) >= len(prefix) && path[:len(prefix)] == prefix &&
+		(len(path) == len(prefix) || path[len(prefix)] == '.')
+}
+
+//@ props C44
+//@ mode int
+//@ loop 1 invariant 0 <= i && specLess(x, y, 0) == specLess(x, y, i)
+//@ loop 1 invariant forall(0, i, func(k int) bool { return k >= len(x) || k >= len(y) || x[k] == y[k] })
+//@ loop 1 decreases len(x) - i
+func contract_lessPath(x, y string) (r bool) {
+	ensures(r == specLess(x, y, 0))
+	return
+}
+
+//@ props C44
+//@ mode int
+func contract_hasPathPrefix(path, prefix string) (r bool) {
+	ensures(r == specPrefix(path, prefix))
+	return
+}
+
+// ---------------------------------------------------------------- the order is a strict total order
+
+// No path sorts before itself.
+//
+//@ props C44
+//@ mode int
+//@ decreases len(x) - i
+func lemma_LessIrreflexive(x string, i int) {
+	requires(0 <= i && i <= len(x))
+	if i < len(x) {
+		lemma_LessIrreflexive(x, i+1)
+	}
+	ensures(!specLess(x, x, i))
+}
+
+// Two paths never sort before each other.
+//
+//@ props C44
+//@ mode int
+//@ decreases len(x) - i
+func lemma_LessAsymmetric(x, y string, i int) {
+	requires(0 <= i && i <= len(x))
+	if i < len(x) && i < len(y) && x[i] == y[i] {
+		lemma_LessAsymmetric(x, y, i+1)
+	}
+	ensures(!(specLess(x, y, i) && specLess(y, x, i)))
+}
+
+// Two different paths are always ordered one way or the other.
+//
+//@ props C44
+//@ mode int
+//@ decreases len(x) - i
+func lemma_LessTotal(x, y string, i int) {
+	requires(0 <= i && i <= len(x) && i <= len(y))
+	requires(forall(0, i, func(k int) bool { return x[k] == y[k] }))
+	if i < len(x) && i < len(y) && x[i] == y[i] {
+		lemma_LessTotal(x, y, i+1)
+	}
+	ensures(specLess(x, y, i) || specLess(y, x, i) || x == y)
+}
+
+// The order is transitive.
+//
+//@ props C44
+//@ mode int
+//@ decreases len(x) - i
+func lemma_LessTransitive(x, y, z string, i int) {
+	requires(0 <= i && i <= len(x))
+	if i < len(x) && i < len(y) && i < len(z) && x[i] == y[i] && y[i] == z[i] {
+		lemma_LessTransitive(x, y, z, i+1)
+	}
+	ensures(imp(specLess(x, y, i) && specLess(y, z, i), specLess(x, z, i)))
+}
+
+// ---------------------------------------------------------------- prefixes and the order
+
+// A path covers itself, and covering is transitive.
+//
+//@ props C44
+//@ mode int
+func lemma_PrefixPreorder(p, q, r string) {
+	ensures(specPrefix(p, p))
+	ensures(imp(specPrefix(p, q) && specPrefix(q, r), specPrefix(p, r)))
+}
+
+// A path sorts before every other path it covers (parents come first).
+//
+//@ props C44
+//@ mode int
+//@ decreases len(x) - i
+func lemma_ParentFirst(z, x string, i int) {
+	requires(0 <= i && i <= len(x))
+	requires(specPrefix(z, x) && z != x)
+	if i < len(x) {
+		lemma_ParentFirst(z, x, i+1)
+	}
+	ensures(specLess(x, z, i))
+}
+
+// Everything that sorts between a path x and a path z covered by x is itself covered by x:
+// because dot is the smallest symbol, the paths covered by x form an interval of the order
+// that starts at x. This is what makes "compare with the previously kept path" in
+// normalizePaths sufficient.
+//
+//@ props C44
+//@ mode int
+//@ decreases len(x) - i
+func lemma_CoveredInterval(x, y, z string, i int) {
+	requires(0 <= i && i <= len(x) && i <= len(y))
+	requires(specPrefix(z, x))
+	requires(forall(0, i, func(k int) bool { return y[k] == x[k] }))
+	requires(specLess(x, y, i) && specLess(y, z, i))
+	if i < len(x) && i < len(y) && y[i] == x[i] {
+		lemma_CoveredInterval(x, y, z, i+1)
+	}
+	ensures(specPrefix(y, x))
+}
+
+// ---------------------------------------------------------------- normalizePaths
+
+// Two adjacent result paths of normalizePaths are strictly ordered.
+//
+//@ props C44
+//@ mode int
+func lemma_StrictFromNotCovered(a, b string) {
+	requires(!specLess(b, a, 0) && !specPrefix(b, a))
+	lemma_LessTotal(a, b, 0)
+	ensures(specLess(a, b, 0))
+}
+
+// normalizePaths sorts in place and keeps a path only if the previously kept path does not
+// cover it. The result is strictly ascending and no kept path is covered by its predecessor;
+// by lemma_CoveredInterval that makes the whole result prefix-free.
+//
+//@ props C44
+//@ mode int
+//@ abstract specPrefix specLess
+//@ loop 1 split
+//@ loop 1 invariant 0 <= loopIndex && loopIndex <= len(paths)
+//@ loop 1 invariant sameBase(out, paths) && offsetIn(out, paths) == 0 && len(out) <= loopIndex && cap(out) == cap(paths)
+//@ loop 1 invariant forall(0, len(paths), func(a int) bool { return forall(0, len(paths), func(b int) bool { return imp(loopIndex <= a && a < b, !specLess(paths[b], paths[a], 0)) }) })
+//@ loop 1 invariant forall(1, len(out), func(k int) bool { return !specLess(out[k], out[k-1], 0) && !specPrefix(out[k], out[k-1]) })
+//@ loop 1 invariant forall(0, len(paths), func(a int) bool { return imp(len(out) > 0 && loopIndex <= a, !specLess(paths[a], out[len(out)-1], 0)) })
+func contract_normalizePaths(paths []string) (r []string) {
+	modifiesElems(paths)
+	ensures(sameBase(r, paths) && offsetIn(r, paths) == 0 && len(r) <= len(paths))
+	// ascending, and no path is covered by its predecessor (hence strictly ascending:
+	// lemma_StrictFromNotCovered; hence prefix-free: lemma_CoveredInterval)
+	ensures(forall(1, len(r), func(k int) bool { return !specLess(r[k], r[k-1], 0) && !specPrefix(r[k], r[k-1]) }))
+	return
+}
